@@ -229,6 +229,34 @@ func checkC19(c *Ctx) {
 		sortedEq("conv<string>("+msg+"#0.Password)", pw+"[0]"): "pwEq",
 		sortedEq("nil", "$0.controls"):                         "noControls",
 	}
+	// "anonymous binds allowed" is whatever SetAllowAnonymousBind stores: the bool itself, or a state constant
+	// chosen from it by a pure bool -> constant helper (`anonBindStateFor(enabled)`)
+	if setter := c.fn(TD, "(*Directory).SetAllowAnonymousBind"); setter != nil && len(setter.Params) == 2 {
+		for _, f := range an.WithClosures(setter) {
+			an.Instrs(f, func(in ssa.Instruction) {
+				st, ok := in.(*ssa.Store)
+				if !ok {
+					return
+				}
+				fa, ok := st.Addr.(*ssa.FieldAddr)
+				if !ok || !an.TypeIs(fa.X.Type(), TD, "Directory") {
+					return
+				}
+				fld := "$0." + an.FieldAddrName(fa)
+				v := an.Strip(st.Val)
+				if v == ssa.Value(setter.Params[1]) {
+					table[fld] = "anon"
+					return
+				}
+				if call, isCall := v.(*ssa.Call); isCall && len(call.Common().Args) == 1 && an.Strip(call.Common().Args[0]) == ssa.Value(setter.Params[1]) {
+					if kT, kF, okH := boolToConstHelper(an.StaticCallee(call.Common())); okH {
+						table[sortedEq(fld, kT)] = "anon"
+						table[sortedEq(fld, kF)] = "!anon"
+					}
+				}
+			})
+		}
+	}
 	var unknown []string
 	for _, a := range atoms {
 		if _, ok := table[a]; !ok {
@@ -274,7 +302,11 @@ func checkC19(c *Ctx) {
 	for _, val := range an.Valuations(atoms) {
 		sem := map[string]bool{}
 		for a, b := range val {
-			sem[table[a]] = b
+			if n := table[a]; strings.HasPrefix(n, "!") {
+				sem[n[1:]] = !b
+			} else {
+				sem[n] = b
+			}
 		}
 		// neutral: err of the getter is the nil-ness atom "==(nil, err)": true means err == nil
 		sem["getErr"] = !sem["getErr"]
@@ -321,4 +353,54 @@ func checkC19(c *Ctx) {
 		R.Check(okG, "C19-getvalues", "(*Entry).GetAttributeValues: values of the first attribute with exactly that name", c.P.Pos(gav.Pos()), "forward range; first element whose Name == argument decides; otherwise an empty list", "GetAttributeValues does not return the first exactly-named attribute's values: atoms "+strings.Join(gatoms, "; "))
 	}
 	R.Assumptions = append(R.Assumptions, "SimpleBindMessage.AuthChoice is always SimpleAuthChoice (newMessage); unlocked reads of the directory state are C15's concern")
+}
+
+// boolToConstHelper: f(b bool) returns one integer constant when b is true
+// and another when it is false, and does nothing else.
+func boolToConstHelper(f *ssa.Function) (whenTrue, whenFalse string, ok bool) {
+	if f == nil || !an.InModule(f) || len(f.Blocks) == 0 || len(f.Params) != 1 {
+		return "", "", false
+	}
+	pure := true
+	an.Instrs(f, func(in ssa.Instruction) {
+		switch in.(type) {
+		case *ssa.Store, ssa.CallInstruction:
+			pure = false
+		}
+	})
+	if !pure {
+		return "", "", false
+	}
+	for _, ret := range an.Returns(f) {
+		res := an.ReturnResults(ret)
+		if len(res) != 1 {
+			return "", "", false
+		}
+		k, isK := an.IntConst(res[0])
+		if !isK {
+			return "", "", false
+		}
+		decided := false
+		for _, fct := range an.BranchFacts(ret.Block()) {
+			cond, neg := an.Not(fct.Cond)
+			if cond == ssa.Value(f.Params[0]) {
+				decided = true
+				if fct.True != neg {
+					if whenTrue != "" && whenTrue != sprintf("%d", k) {
+						return "", "", false
+					}
+					whenTrue = sprintf("%d", k)
+				} else {
+					if whenFalse != "" && whenFalse != sprintf("%d", k) {
+						return "", "", false
+					}
+					whenFalse = sprintf("%d", k)
+				}
+			}
+		}
+		if !decided {
+			return "", "", false
+		}
+	}
+	return whenTrue, whenFalse, whenTrue != "" && whenFalse != "" && whenTrue != whenFalse
 }
